@@ -313,6 +313,7 @@ class Client:
         self.pending: deque[Cmd] = deque()
         self.history: list[Cmd] = []
         self.unsolicited: list[Resp] = []
+        self.log: list[Resp] = []
         self.greeting: Resp | None = None
         self.tagno = 0
         self.shadow = Shadow(self)
@@ -410,6 +411,7 @@ class Client:
 
     def _on_response(self, resp: Resp) -> None:
         cur = self.current
+        self.log.append(resp)
         if self.greeting is None and resp.tag == b'*' and resp.kind == 'cond':
             self.greeting = resp
             self._note_caps(resp)
